@@ -237,6 +237,13 @@ pub fn all_violations(prop: &dyn Property, scn: &Scenario, refdata: Option<&RefD
     if matches!(r.end, EndState::Completed) {
         v.extend(prop.judge(scn, refdata, r));
     }
+    // the answers to result requests issued mid-run are judged under C03 only ("the same result and
+    // the same per-process results ... no schedule makes such a program hang": a request that is
+    // never answered, or answered with something else, is how a host observes exactly that); the other
+    // properties' statements do not speak of result requests, there the requests are traffic only
+    if id != "C03" {
+        v.retain(|x| !(x.prop == "ANY" && x.rule == "result-request"));
+    }
     // attribute generic violations to this property
     for x in v.iter_mut() {
         if x.prop == "ANY" {
